@@ -5,7 +5,8 @@ def register(R):
     R.record("ProgressSample", [("timestamp", "float"), ("completed", "float")], pyclass="rich.progress.ProgressSample")
     R.record("Task", [("id", "int"), ("total", "float"), ("completed", "float"), ("finished_time", "Optional[float]"),
                       ("start_time", "Optional[float]"), ("stop_time", "Optional[float]"), ("visible", "bool"),
-                      ("_progress", "list[ProgressSample]"), ("_get_time", "opaque:GetTime")], pyclass="rich.progress.Task", mutable=True)
+                      ("_progress", "list[ProgressSample]"), ("_get_time", "opaque:GetTime"),
+                      ("description", "ostr"), ("fields", "opaque:FieldsDict")], pyclass="rich.progress.Task", mutable=True)
     # deque invariant maintained by Progress.update / advance under the lock
     R.specfn("samples_ok", ["t"],
              "all(t._progress[i].completed >= 0 for i in range(len(t._progress)))"
@@ -82,9 +83,71 @@ def register_progress(R):
     )
 
 
+def register_update(R):
+    from vf.pyvc.contracts import Loop
+    adv = R.contracts[("rich.progress", "Progress.advance")]
+    R.contract("<opaque>", "FieldsDict.update", serves=["C12"], params={"self": "opaque:FieldsDict", "other": "opaque:FieldsDict"},
+               trusted="dict.update on the free-form task fields (not part of the property)")
+    R.contract("rich.progress", "Progress.refresh", serves=["C12", "C10"], params={"self": "Progress"},
+               raises={"Exception": "*"},
+               trusted="rendering: reads the tasks, writes to the console, may raise from user columns; does not modify task accounting (by inspection: refresh/get_renderable/make_tasks_table only read task fields)")
+    T = "self._tasks[task_id]"
+    A = "acq(self._tasks[task_id])"
+    R.contract(
+        "rich.progress", "Progress.update", serves=["C12", "C11"],
+        params={"self": "Progress", "task_id": "int", "total": "Optional[float]", "completed": "Optional[float]", "advance": "Optional[float]",
+                "description": "Optional[ostr]", "visible": "Optional[bool]", "refresh": "bool", "fields": "opaque:FieldsDict"},
+        requires=["implies(advance is not None, advance >= 0)", "implies(completed is not None, completed >= 0)"],
+        ghost={"ghost_now": "float"}, monitor=adv.monitor, loops=adv.loops,
+        raises={"KeyError": "*", "Exception": "*"},
+        ensures=[
+            f"implies(completed is not None, {T}.completed == completed)",
+            f"implies(completed is None and advance is not None, {T}.completed == {A}.completed + advance)",
+            f"implies(completed is None and advance is None, {T}.completed == {A}.completed)",
+            f"{T}.total == (total if total is not None else {A}.total)",
+            f"implies({T}.start_time is not None and {T}.completed >= {T}.total, {T}.finished_time is not None)",
+            f"implies(total is None and {A}.finished_time is not None, {T}.finished_time == {A}.finished_time)",
+        ],
+        native=False,
+    )
+    R.contract(
+        "rich.progress", "Progress.reset", serves=["C12", "C11"],
+        params={"self": "Progress", "task_id": "int", "start": "bool", "total": "Optional[int]", "completed": "int",
+                "visible": "Optional[bool]", "description": "Optional[ostr]", "fields": "opaque:FieldsDict"},
+        ghost={"ghost_now": "float"}, monitor=adv.monitor,
+        raises={"KeyError": "*", "Exception": "*"},
+        ensures=[
+            f"{T}.completed == completed",
+            f"{T}.finished_time is None",
+            f"len({T}._progress) == 0",
+            f"implies(total is not None, {T}.total == total)",
+            f"implies(total is None, {T}.total == {A}.total)",
+            f"iff({T}.start_time is not None, start)",
+        ],
+        ensures_raise={"Exception": [f"{T}.completed == completed", f"{T}.finished_time is None"]},
+        native=False,
+    )
+    R.contract(
+        "rich.progress", "Progress.start_task", serves=["C12", "C11"],
+        params={"self": "Progress", "task_id": "int"},
+        ghost={"ghost_now": "float"}, monitor=adv.monitor, raises={"KeyError": "*"},
+        ensures=[f"{T}.start_time is not None", f"{T}.completed == {A}.completed and {T}.total == {A}.total",
+                 f"implies({A}.start_time is not None, {T}.start_time == {A}.start_time)"],
+        native=False,
+    )
+    R.contract(
+        "rich.progress", "Progress.stop_task", serves=["C12", "C11"],
+        params={"self": "Progress", "task_id": "int"},
+        ghost={"ghost_now": "float"}, monitor=adv.monitor, raises={"KeyError": "*"},
+        ensures=[f"{T}.start_time is not None and {T}.stop_time is not None", f"{T}.completed == {A}.completed and {T}.total == {A}.total"],
+        native=False,
+    )
+
+
 _p0 = register
 
 
 def register(R):
     _p0(R)
     register_progress(R)
+    register_update(R)
